@@ -142,12 +142,12 @@ def _eval_loop(ctx, cls, file, col):
 
 def _change_count(ctx, cls, file, col):
     owner, fn = ctx.ct.require(cls, "_iteration_step")
-    rets = [s for s in ast.walk(fn) if isinstance(s, ast.Return)]
+    from .common import returned_expr
+    rv = returned_expr(fn)
     construct = "PolicyIteration._iteration_step"
-    if len(rets) != 1 or not isinstance(rets[0].value, ast.Tuple) or len(rets[0].value.elts) != 2 \
-            or not all(isinstance(e, ast.Name) for e in rets[0].value.elts):
+    if not isinstance(rv, ast.Tuple) or len(rv.elts) != 2 or not all(isinstance(e, ast.Name) for e in rv.elts):
         raise AnalysisError(f"{construct}: expected `return new_policy, n_changed`")
-    pol_name, cnt_name = (e.id for e in rets[0].value.elts)
+    pol_name, cnt_name = (e.id for e in rv.elts)
     defs = [s for s in fn.body if isinstance(s, ast.Assign) and len(s.targets) == 1 and isinstance(s.targets[0], ast.Name) and s.targets[0].id == cnt_name]
     if len(defs) != 1:
         raise AnalysisError(f"{construct}: change count `{cnt_name}` is not defined by a single assignment")
@@ -211,11 +211,12 @@ def _ordering(ctx, cls, file, col):
             "self.values = _evaluate_policy(self.policy) precedes the greedy extraction on every path" if ok else
             "evaluation of self.policy into self.values does not dominate _extract_policy()", text="evaluate before improve")
     # the returned policy is the extracted one
-    rets = [s for s in ast.walk(fn) if isinstance(s, ast.Return)]
+    from .common import returned_expr
+    rv = returned_expr(fn)
     ok2 = False
-    if ex_nodes and len(rets) == 1 and isinstance(rets[0].value, ast.Tuple) and isinstance(ex_nodes[0].ast, ast.Assign):
+    if ex_nodes and isinstance(rv, ast.Tuple) and isinstance(ex_nodes[0].ast, ast.Assign):
         tname = ex_nodes[0].ast.targets[0].id if isinstance(ex_nodes[0].ast.targets[0], ast.Name) else None
-        ok2 = isinstance(rets[0].value.elts[0], ast.Name) and rets[0].value.elts[0].id == tname
+        ok2 = isinstance(rv.elts[0], ast.Name) and rv.elts[0].id == tname
         # no write to self.values between evaluation and return
         between = [n for n in g.stmts() if n not in ev_nodes and isinstance(n.ast, (ast.Assign, ast.AugAssign))
                    and any(is_self_attr(t, "values") for t in (n.ast.targets if isinstance(n.ast, ast.Assign) else [n.ast.target]))]
